@@ -11,10 +11,12 @@ InitPlain == {WithTarget, Sentinels}
 PlainNames == { <<"a">>, <<"b">>, <<"f", "DOT", "x">> }
 PlainNamesL == { <<"a">>, <<"b">>, <<"f", "DOT", "x">>, <<"L">> }
 HostileNames == { <<"a">>, <<"DOT">>, <<"DOT", "DOT">>, <<"a", "SL", "b">>, <<"SL", "a">>, <<"DOT", "DOT", "SL", "a">> }
-Exts4 == { {}, {<<"DOT", "x">>}, {<<"f", "DOT", "x">>}, {<<"x">>, <<"DOT", "x">>}, {<<"b">>} }
+\* dry-run: names that become files under some extension list, and hostile names
+DryNames == { <<"a">>, <<"f", "DOT", "x">>, <<"DOT", "DOT">>, <<"a", "SL", "b">>, <<"DOT">> }
+Exts4 == { {}, {<<"DOT", "x">>}, {<<"f", "DOT", "x">>}, {<<"x">>, <<"DOT", "x">>}, {<<"b">>}, {<<"x">>}, {<<>>} }
 Exts2 == { {}, {<<"a">>} }
 ExtsX == { {<<"DOT", "x">>} }
-Suffix1 == { <<"e">> }
+Suffix1 == { <<"e">>, <<"f">> }   \* "f" is a proper prefix of the required name "f.x"
 NoSuffix == {}
 Long == {"L"}
 =============================================================================
